@@ -13,6 +13,7 @@ CONSTANTS
   Sizes = {}
   HistStores <- HistStoresQuick
   HistKinds = {}
+  HistFillFirst = TRUE
   MaxSteps = 0
 INVARIANTS ImplAgrees
 CHECK_DEADLOCK FALSE
